@@ -16,6 +16,7 @@ import (
 func main() {
 	var seed int64 = 1
 	tier, out := "quick", "."
+	budget := 0
 	var props []string
 	args := os.Args[1:]
 	for i := 0; i < len(args); i++ {
@@ -29,6 +30,9 @@ func main() {
 		case "-out":
 			i++
 			out = args[i]
+		case "-budget": // > 0: check_all cases (every monitor) from `budget` runs of each profile
+			i++
+			fmt.Sscan(args[i], &budget)
 		default:
 			props = append(props, args[i])
 		}
@@ -39,7 +43,11 @@ func main() {
 			fmt.Fprintln(os.Stderr, err)
 			os.Exit(3)
 		}
-		sum, err := pipeline.RunFor(p)(seed, tier, dir)
+		run := pipeline.RunFor(p)
+		if budget > 0 {
+			run = pipeline.RunAll(p, budget)
+		}
+		sum, err := run(seed, tier, dir)
 		if err != nil {
 			fmt.Fprintln(os.Stderr, "corrall:", p, err)
 			os.Exit(3)
